@@ -27,7 +27,7 @@ class Q:
     """One solver query: a harness entry point compiled with concrete shape parameters; all data inputs symbolic."""
     def __init__(self, name, src, entry, defs=None, unwind=8, unwindset=None, rt=(), tier='quick', timeout=None,
                  solvers=None, labels=None, shape=None, cdefs=None, bughunt=False, unwind_is_property=False,
-                 params=None, finding_class=None, note=None, nsw=False, new_limit=None, mem_gb=None, rt_unwind=260):
+                 params=None, finding_class=None, note=None, nsw=False, new_limit=None, mem_gb=None, rt_unwind=260, mem_unwind=130):
         self.name, self.src, self.entry = name, src, entry
         self.defs = dict(defs or {})
         self.unwind, self.unwindset = unwind, list(unwindset or [])
@@ -35,7 +35,7 @@ class Q:
         self.solvers = solvers; self.labels = labels
         self.shape = shape if shape is not None else dict(self.defs, **({'params': list(params)} if params else {}))
         self.cdefs = dict(cdefs or {}); self.bughunt = bughunt; self.unwind_is_property = unwind_is_property
-        self.params = list(params or []); self.rt_unwind = rt_unwind; self.note = note; self.nsw = nsw; self.new_limit = new_limit; self.mem_gb = mem_gb
+        self.mem_unwind = mem_unwind; self.params = list(params or []); self.rt_unwind = rt_unwind; self.note = note; self.nsw = nsw; self.new_limit = new_limit; self.mem_gb = mem_gb
 
 def sh(cmd, timeout=None, cwd=None, mem_gb=None, env=None):
     def pre():
@@ -164,7 +164,7 @@ def loops_for(q, outd):
     resolved against cbmc --show-loops of the generated program"""
     # X_vp_fill_n is only ever called with concrete sizes (unrolled exactly); the other runtime loops get the query's rt_unwind
     # vp_mem* also serve constant-size struct copies/zeroing emitted by clang (up to ~130 bytes)
-    us = ['%s:%d' % (i, 2100 if i.startswith('X_vp_fill_n.') else (max(q.rt_unwind, 130) if i.startswith('vp_mem') else q.rt_unwind)) for i in rt_loop_ids(q)]
+    us = ['%s:%d' % (i, 2100 if i.startswith('X_vp_fill_n.') else (max(q.rt_unwind, q.mem_unwind) if i.startswith('vp_mem') else q.rt_unwind)) for i in rt_loop_ids(q)]
     if q.unwindset:
         js = None
         for attempt in range(3):
